@@ -118,6 +118,8 @@ RefDocOwner(c) == LET s == SelectSeq(RefSources(c), HasDoc) IN
 \* the class page of c lists the member as inherited from the class lookup finds it in - unless that definition is
 \* hidden: then nothing is listed (the hidden definition still masks everything behind it)
 RefInherited(c) == IF RefFind(c) # 0 /\ Visible(RefFind(c)) THEN <<RefFind(c)>> ELSE <<>>
+\* ... and the "Inherited from X" tables of the page are those listings except the class's own members (main table)
+RefPageTables(c) == SelectSeq(RefInherited(c), LAMBDA x : x # c)
 \* "overrides X.f": the definition c.f overrides, when it is part of the documentation
 RefOverrides(c) == LET s == RefSources(c) IN IF Len(s) > 1 /\ Visible(s[2]) THEN s[2] ELSE 0
 
@@ -182,6 +184,9 @@ PdFind(c) == FirstDefining(mro[c])
 \* it is visible and no class before it in the order has a member of that name (visible or not)
 PdInherited(c) == SelectSeq(mro[c], LAMBDA b : /\ Defines(b) /\ Visible(b)
                                                 /\ \A j \in 1..Len(mro[c]) : (j < PosIn(mro[c], b)) => ~Defines(mro[c][j]))
+\* pages.ClassPage.baseTables: util.class_members keeps the chains that list something; the first one is dropped when it
+\* is the class itself (a class without visible members of its own has no such entry)
+PdPageTables(c) == LET l == PdInherited(c) IN IF Len(l) > 0 /\ l[1] = c THEN Tail(l) ELSE l
 \* pages.get_override_info: the first definition after c along the order, mentioned when it is visible
 PdOverrides(c) == LET d == FirstDefining(Tail(mro[c])) IN IF d # 0 /\ Visible(d) THEN d ELSE 0
 \* extensions/zopeinterface.py:41-76: ZopeInterfaceFunction.docsources = the regular sources, THEN what the interfaces
@@ -333,6 +338,7 @@ RefLaws == Done => \A c \in Classes : Consistent(c) =>
 \* members are attributed / documented as attribute lookup along Python's order yields
 FindIsLookup == Done => \A c \in Classes : Consistent(c) => PdFind(c) = RefFind(c)
 InheritedTable == Done => \A c \in Classes : Consistent(c) => PdInherited(c) = RefInherited(c)
+PageTables == Done => \A c \in Classes : Consistent(c) => PdPageTables(c) = RefPageTables(c)
 OverridesNote == Done => \A c \in Classes : (Consistent(c) /\ Defines(c)) => PdOverrides(c) = RefOverrides(c)
 \* ... anything that is not on the MRO (an interface declaration) can only come after every definition along it, and can
 \* only document the member when nothing along the MRO does
@@ -358,6 +364,7 @@ PdSourcesE(c) == IF Defines(c) THEN PdSources(c) ELSE <<>>
 PdDocE(c) == IF Defines(c) THEN PdDocOwner(c) ELSE 0
 RefInhE(c) == IF Consistent(c) THEN RefInherited(c) ELSE <<>>
 RefOvrE(c) == IF Consistent(c) /\ Defines(c) THEN RefOverrides(c) ELSE 0
+RefPageE(c) == IF Consistent(c) THEN RefPageTables(c) ELSE <<>>
 PdOvrE(c) == IF Defines(c) THEN PdOverrides(c) ELSE 0
 Emit == Done => PrintT(ToJson([cid |-> cid, n |-> n, bases |-> bases, born |-> born, member |-> member, lay |-> lay,
                                c3 |-> PerClass(RefMro), own |-> PerClass(OwnInconsistent),
@@ -367,5 +374,6 @@ Emit == Done => PrintT(ToJson([cid |-> cid, n |-> n, bases |-> bases, born |-> b
                                doc_ref |-> PerClass(RefDocE), doc_pd |-> PerClass(PdDocE),
                                inh_ref |-> PerClass(RefInhE), inh_pd |-> PerClass(PdInherited),
                                ovr_ref |-> PerClass(RefOvrE), ovr_pd |-> PerClass(PdOvrE),
+                               page_ref |-> PerClass(RefPageE), page_pd |-> PerClass(PdPageTables),
                                early_pd |-> PerClass(PdEarlyFind), early_base_pd |-> PerClass(PdEarlyBase), late |-> PerClass(LateAbove)]))
 =============================================================================
